@@ -1,6 +1,6 @@
 SPECIFICATION Spec
 CONSTANTS
-  Devs = {"Octal8", "EscapeRange", "PlainCharRaw", "WideCharRaw", "CharConstCpRange", "Utf8Overlong", "Utf8SurrogateHigh"}
+  Devs = {"EscapeRange", "CharConstCpRange"}
   Mode = "sim"
   Tier = "quick"
 INVARIANTS Inv_Refines Inv_NoAbort Inv_Wf Inv_Emit
